@@ -36,4 +36,52 @@ CHECKS = {
         "text": "Engine H: every public setter of the four profiles and two spectra (two valid values + documented rejected values), all sequences up to length 3 (thorough: 4), detached and attached to a Laser, every observable compared with a freshly constructed object; blame replay attributes a divergence to the first op causing it. Engine L: cross-section / volume integrals and second moments on a parameter lattice by independent quadrature, segment tiling over a radius x length lattice incl. +-1 ulp coincidences, per-bin power against closed-form integrals over all awkward-decimal ranges.",
         "note": "Trapezoid quadrature on a grid scaled from the measured width (stated tolerance 1e-10); Rayleigh-range formula of GaussianBeamAxisymmetric is not in the property and not checked; swapping profile/spectrum on the Laser and ray tracing are covered by C01's laser driver.",
     },
+    "C13": {
+        "engine": "L",
+        "technique": "bounded-exhaustive enumeration of an argument alphabet (products incl. subnormals, signed zeros, exact period multiples, huge values), all axis/shape selectors, all simple lattice polygons (3x3 up to 6, 4x4 up to 5 vertices; thorough 7) in every presentation, all sample-count/range combinations; oracle on the arguments the wrapped callable actually receives",
+        "text": "The wrapped function records what it is called with, so the oracle is on the mapped argument itself: exact equality for iso-mapping/swizzle/slice/clamp, <=2 ulp for hypot/atan2 mappers (60-digit reference), inner periodic argument strictly in [0,p) and congruent to x mod p (exact rationals), polygon mask == exact rational point-in-polygon on three offset lattices, sampler arrays index-exact with an injective integer-coded function. The space (alphabet products, every polygon with every start vertex and orientation) is closed completely.",
+        "note": "Nothing is claimed between alphabet values; magnitudes beyond 1e150 (x*x overflow) and strictly between 5e-324 and 1e-20 (x*x underflow) are outside the alphabet; boundary points of polygons are excluded as undefined.",
+    },
+    "C01": {
+        "engine": "H",
+        "technique": "explicit-state exploration of all mutator histories up to depth 2 (thorough 3) over the full alphabet, depth 3 (thorough 4) inside dependency groups, with every observation interleaving, from 4 start configurations per driver; differential oracle live scene vs scene built from scratch; greedy minimisation of failing histories for the signature",
+        "text": "Three closed scenes (plasma+passive models, beam+attenuator+beam models, laser+Thomson model) with fixed sight lines. Every history of public mutators up to the bound, with an observation optionally before each op, is replayed on a fresh live scene and its final observation (ray spectra, beam density/direction, z_effective/ion density, laser geometry/material/profile/spectrum, exception types) is compared with a scene built from scratch in the final configuration. Nothing hand-written is expected, so any stale cache, missed notification or order dependence inside the bound shows. A crashing batch is split down to the single history that crashes.",
+        "note": "raysect scene graph / ray tracing trusted; mock AtomicData (mc/refs/mockatomic.py) whose coefficients depend on every argument; only supported mutators with valid values are in the alphabet; histories longer than the bound and mutators of user subclasses are outside.",
+    },
+    "C02": {
+        "engine": "L",
+        "technique": "bounded-exhaustive lattice over models x plasma states x B x directions x windows (contain/straddle/between/cut-off-edge/miss/isolate) x bins x radiance x polarisation, closed-form erf / 2F1 reference per bin",
+        "text": "Every lattice point calls the real add_line on a zeroed spectrum and compares every bin with the bin-average of the documented normalised profile (erf for Gaussian parts, closed-form CDF for the modified Lorentzian, cross-checked against scipy quad in each worker), the window integral, pi+sigma==unpolarised, component ratios from isolating windows and the zero-width rule. bin-width/FWHM class is part of the signature so that the known coarse-grid quadrature defect cannot mask a wrong weight.",
+        "note": "Tolerance 1e-9 of the peak bin for erf shapes, 2e-4 where a Lorentzian part is present (20x the documented quadrature rtol); MSE with n_e<=0/T_e<=0 and the exact L==G pseudo-Voigt boundary are not in the lattice.",
+    },
+    "C03": {
+        "engine": "L",
+        "technique": "bounded-exhaustive enumeration of all composition subsets x lines x value lattices (incl. zero/negative densities and temperatures) x line shapes x windows, compared with the documented expressions; mock provider keyed by the full request key",
+        "text": "All subsets (size<=4, thorough 5) of a species universe are attached to each passive model; emission() is compared with the documented total, exact-zero and sign rules and linearity, the recorder line shape checks constructor arguments and radiance, Bremsstrahlung is compared with Hutchinson 5.3.40 from scipy.constants by an independent Gauss-Legendre integral, and slab Ray.trace checks the material path.",
+        "note": "Slab traces rel 1e-7 (raysect shortens the path by its 1e-9 m epsilon); default adaptive brems integrator rel 1e-5, fixed order 1e-8.",
+    },
+    "C04": {
+        "engine": "L",
+        "technique": "bounded-exhaustive lattice over beam parameters x attenuator step/clamp x placements x plasma kinds (none, uniform, non-uniform, slab, flow, zero-rate, neutral), each compared with an independent numpy reference of the documented node rule and with a fine Gauss-Legendre integral",
+        "text": "Each configuration is a freshly built scene; on-axis line density at every node/midpoint against exp(-trapezoid(S)/v) on the documented nodes, transverse moments and cross-section flux by Gauss-Hermite / polar Gauss-Legendre, exact zeros outside the domain and clamp, monotone decay, attenuator==beam density, direction unit/tangent and three integrated streamlines.",
+        "note": "Reference in mc/refs/c04_model.py (no cherab import); with clamping on the conserved quantity is the flux inside the clamp ellipse; tolerance 1e-12 + 1e-11*exponent.",
+    },
+    "C15": {
+        "engine": "H",
+        "technique": "explicit-state exploration of all operation sequences (add/assign/rename/lookup/broadcast with every value kind) up to length 2-3 (thorough 3-4) on each of 7 group classes, sizes 0..3 (4), oracle after every operation against a list-of-dicts model and against a freshly built group",
+        "text": "Members are counting subclasses of the real observers. The attribute table is introspected from the classes and cross-checked with a hand list; per (class, attribute) every value kind incl. wrong lengths and empty lists, all attribute pairs for cross-talk, membership operations and look-ups; after each op every member attribute, group getter, parent/children, index/slice/name look-up and observe counter is compared with the model.",
+        "note": "BolometerCamera slice look-up (documented int/str only) is counted, not asserted; duplicate-name look-up only asserts membership.",
+    },
+    "C16": {
+        "engine": "H+L",
+        "technique": "explicit-state exploration of all setter sequences <= 3 (thorough 4) with read interleavings on Spectrometer / CzernyTurnerSpectrometer / Polychromator with live-vs-fresh differential oracle; exhaustive calibration lattice against exact rational integration of the piecewise-linear spectrum",
+        "text": "Every setter (valid, rejected and empty values) in every order up to the bound, reads optionally before each op and twice at the end, compared exactly with a freshly constructed instrument plus independent range/bin-width/pixel oracles; calibrate() on all layout singles/pairs/triples x spectra against fractions.Fraction integrals.",
+        "note": "CzernyTurner dispersion formula itself is not judged (consistency only); in-place mutation of returned containers is not a setter; calibration tolerance 1e-12 + 4 ulp(max_wavelength)/delta.",
+    },
+    "C20": {
+        "engine": "L",
+        "technique": "bounded-exhaustive lattice over grid sizes (2..6, thorough 2..9) x voxel sizes x origins x index orderings x all projective classes of quadratic flux maps with coefficients in {-1,0,1,2} x anisotropies, exactness on the monomial basis, coefficient read-off against analytic div(D grad f), refinement ladder",
+        "text": "Derivative operators are applied to the monomial basis in every cell class; calculate_admt is checked for finiteness, annihilation of constants, the anisotropy-1 identity for any flux map in every row, analytic coefficients for quadratic flux maps at interior rows, and error halving under refinement for cubic/quartic maps.",
+        "note": "Reference derivation in mc/refs/admt_ref.py is self-tested against 4th-order numerical differentiation of the flux form in every worker; D_par=1, D_perp=1/anisotropy assumed.",
+    },
 }
